@@ -331,6 +331,28 @@ def apply_json(old_lines, mismatches):
     return "".join(out)
 
 
+def _in_order(ops):
+    """the hypothesis of C18_unified / C18_json_as_indexed: similar's index fields are the running positions"""
+    oi = ni = 0
+    if ops == "-":
+        return True
+    import re
+    for o in ops.split(","):
+        m = re.match(r"([EDIR])(\d+)(?:\.(\d+))?@(\d+):(\d+)$", o)
+        k, a, b, xo, xn = m.group(1), int(m.group(2)), int(m.group(3) or 0), int(m.group(4)), int(m.group(5))
+        if (xo, xn) != (oi, ni):
+            return False
+        if k == "E":
+            oi += a; ni += a
+        elif k == "D":
+            oi += a
+        elif k == "I":
+            ni += a
+        else:
+            oi += a; ni += b
+    return True
+
+
 def apply_unified(old_text, diff_text):
     old = old_text.splitlines(True)
     out = []
@@ -422,6 +444,7 @@ def c18(tier, seed):
     cases = [(os.path.relpath(p, corpus), open(p, encoding="utf-8").read()) for p in pool] + list(specials.items())
     n = 0
     multi_inserts = []
+    uni_stats = {"pairs": 0, "in_order": 0, "hunks": 0}
     for name, text in cases:
         with Tree({"f.lua": text}) as t:
             expected = _lib_format(text, "syntax=All")
@@ -469,6 +492,18 @@ def c18(tier, seed):
                 got = apply_unified(text, ud)
                 if got != expected:
                     V.append(v("C18", "unified:does-not-reconstruct", dict(detail, diff=ud[:400])))
+            # ring 2: the bytes printed vs Model/Unified.lean rendering similar's hunks for this script; the model also
+            # runs its strict applier on them (answer `ok`), so a real script the theorem's hypothesis excludes
+            # (stale index fields) is still decided by the model
+            if len(old_lines) + len(new_lines) < 400:
+                texts = {}
+                for l, i in list(zip(old_lines, oids.split(","))) + list(zip(new_lines, nids.split(","))):
+                    texts[int(i)] = l
+                tx = ",".join((texts[i].encode("utf-8").hex() or "-") for i in range(len(texts))) or "-"
+                uni_stats["pairs"] += 1
+                uni_stats["in_order"] += 1 if _in_order(ops) else 0
+                uni_stats["hunks"] += ud.count("\n@@ ")
+                Q.append(q("diffuni %s %s %s %s" % (ops, oids, nids, tx), (out.hex() or "-") + " ok"))
             # ---- standard / summary: printed iff differs
             for fmt in ("standard", "summary"):
                 rc, out, err = run(["--check", "--output-format", fmt, "f.lua"], t.root)
@@ -477,7 +512,7 @@ def c18(tier, seed):
                 printed = ("Diff in f.lua" in o) if fmt == "standard" else ("\nf.lua\n" in "\n" + o)
                 if printed != (text != expected):
                     V.append(v("C18", fmt + ":diff-iff-differs", dict(detail, differs=text != expected)))
-    S.append({"c18": {"pairs": len(cases), "cli_runs": n, "oracle_evaluations": n, "pairs_with_multi_line_pure_insert": multi_inserts}})
+    S.append({"c18": {"pairs": len(cases), "cli_runs": n, "oracle_evaluations": n, "pairs_with_multi_line_pure_insert": multi_inserts, "unified_model_requests": uni_stats}})
     return Q, V, S
 
 
